@@ -137,7 +137,10 @@ def replay_model(cond, args, kwargs):
         r = fn(*args, **kwargs)
         out = {"reproduced": not bool(r), "observed": f"returned {r!r}"}
     except Exception as e:  # noqa: BLE001
-        out = {"reproduced": True, "observed": f"raised {type(e).__name__}: {str(e)[:400]}", "traceback": traceback.format_exc()[-1200:]}
+        from vlib.replay import exception_origin
+        origin = exception_origin(e)
+        out = {"reproduced": True if origin == "code" else None, "exception_origin": origin,
+               "observed": f"raised {type(e).__name__}: {str(e)[:400]}", "traceback": traceback.format_exc()[-1200:]}
     last = ns.get("LAST", {})
     out["texel"] = str(last.get("grid_t"))
     out["pretext_agp"] = ns["REPLAY_TEXT"].get("pretext_agp")
